@@ -78,7 +78,16 @@ def delegation(ctx, meths, rule='C14.D1'):
         x_ = fn.args.args[1].arg if len(fn.args.args) > 1 else ''
         forms = [f.format(s=s_, x=x_) for f in READ_FORMS[name]]
         rets = [r for r in walk_no_nested(fn) if isinstance(r, ast.Return) and r.value is not None]
-        via_index = [r for r in rets if '_index' in norm(r.value) or '%s.get(' % s_ in norm(r.value)
+        def _src(r):
+            # the returned expression, with plain locals replaced by what they were assigned
+            t = norm(r.value)
+            for x in ast.walk(r.value):
+                if isinstance(x, ast.Name):
+                    for a in walk_no_nested(fn):
+                        if isinstance(a, ast.Assign) and len(a.targets) == 1 and norm(a.targets[0]) == x.id:
+                            t += ' <- ' + norm(a.value)
+            return t
+        via_index = [r for r in rets if '_index' in _src(r) or '%s.get(' % s_ in _src(r)
                      or any(isinstance(c, ast.Subscript) and norm(c.value) == s_ for c in ast.walk(r.value))]
         if via_index:
             r = via_index[0]
